@@ -34,30 +34,31 @@ var ruleSets = map[string]func(a *Analyzer, r *Results){
 	"shutdown": runShutdown,
 	"timer":  runTimer,
 	"c20":    runC20,
+	"more":   runMore,
 }
 
 // which rule sets each property needs
 var propSets = map[string][]string{
-	"C01": {"ingest", "proof", "c06"},
+	"C01": {"more", "ingest", "proof", "c06"},
 	"C02": {"c02", "c12"},
 	"C03": {"ingest", "c20"},
 	"C04": {"ingest"},
-	"C05": {"ingest", "chan", "loops", "setters"},
+	"C05": {"more", "ingest", "chan", "loops", "setters"},
 	"C06": {"c06"},
-	"C07": {"ingest", "proof"},
+	"C07": {"more", "ingest", "proof"},
 	"C08": {"ingest", "proof"},
-	"C09": {"ingest", "c20"},
+	"C09": {"more", "ingest", "c20"},
 	"C10": {"ingest", "setters", "c20"},
-	"C11": {"ingest", "proof"},
-	"C12": {"c12", "c18"},
-	"C13": {"ingest", "setters", "locks", "registry", "loops"},
-	"C14": {"ingest", "chan", "sync", "loops", "registry", "shutdown"},
-	"C15": {"ingest", "registry", "locks", "loops", "sync", "shutdown"},
-	"C16": {"chan", "spawn", "shutdown", "timer", "c12", "registry"},
-	"C17": {"ingest", "c17"},
-	"C18": {"c18"},
-	"C19": {"c19f", "timer", "chan", "loops", "ingest"},
-	"C20": {"c20"},
+	"C11": {"more", "ingest", "proof", "c20"},
+	"C12": {"more", "c12", "c18", "locks", "ingest"},
+	"C13": {"more", "ingest", "setters", "locks", "registry", "loops", "c17"},
+	"C14": {"more", "ingest", "chan", "sync", "loops", "registry", "shutdown", "timer"},
+	"C15": {"more", "ingest", "registry", "locks", "loops", "sync", "shutdown"},
+	"C16": {"more", "chan", "spawn", "shutdown", "timer", "c12", "registry"},
+	"C17": {"more", "ingest", "c17"},
+	"C18": {"more", "c18"},
+	"C19": {"more", "c19f", "timer", "chan", "loops", "ingest"},
+	"C20": {"more", "c20"},
 }
 
 // minimum number of obligation instances per rule confirmed by reading (vacuity guard)
